@@ -293,6 +293,22 @@ func c14World(t *testing.T, r *simcore.Run) any {
 				fail("ntp/lvm", "leap/version/mode accessors and setters disagree with byte %#02x", b[0])
 				return
 			}
+			// the setters on a header that already carries other values (a decoded header that is
+			// turned into a reply): each replaces its own field and nothing else
+			old := byte(k*37 + idx)
+			q2 := ntp.Packet{LVM: old}
+			q2.SetVersion((b[0] >> 3) & 7)
+			if q2.Version() != (b[0]>>3)&7 || q2.LeapIndicator() != old>>6 || q2.Mode() != old&7 {
+				fail("ntp/lvm", "SetVersion(%d) on a header with first byte %#02x gives %#02x", (b[0]>>3)&7, old, q2.LVM)
+				return
+			}
+			q2 = ntp.Packet{LVM: old}
+			q2.SetMode(b[0] & 7)
+			q2.SetLeapIndicator(b[0] >> 6)
+			if q2.Mode() != b[0]&7 || q2.LeapIndicator() != b[0]>>6 || q2.Version() != (old>>3)&7 {
+				fail("ntp/lvm", "SetMode / SetLeapIndicator on a header with first byte %#02x give %#02x", old, q2.LVM)
+				return
+			}
 		}
 		// CSPTP message and TLVs
 		var rqReused csptp.RequestTLV
@@ -379,6 +395,15 @@ func c14World(t *testing.T, r *simcore.Run) any {
 			var sc2 ntske.ServerCookie
 			if err := sc2.Decode(sc.Encode()); err != nil || sc2.Algo != sc.Algo || !bytes.Equal(sc2.S2C, sc.S2C) || !bytes.Equal(sc2.C2S, sc.C2S) {
 				fail("cookie/plain-roundtrip", "server cookie with key lengths %d/%d does not round-trip: %v", len(sc.S2C), len(sc.C2S), err)
+				return
+			}
+			// the same variable, changed and encoded again: the second encoding is of the new value
+			sc.Algo++
+			if len(sc.S2C) > 0 {
+				sc.S2C[0] ^= 0xff
+			}
+			if err := sc2.Decode(sc.Encode()); err != nil || sc2.Algo != sc.Algo || !bytes.Equal(sc2.S2C, sc.S2C) || !bytes.Equal(sc2.C2S, sc.C2S) {
+				fail("cookie/plain-roundtrip", "a server cookie changed after its first encoding does not round-trip: %v", err)
 				return
 			}
 			key := nw.prov.Current()
